@@ -26,6 +26,10 @@ pub struct Case {
 	/// host part of the endpoint URL: name (localhost) | ip (127.0.0.1)
 	#[serde(default)]
 	pub url_host: String,
+	/// "" | "superseded-right": the main file's [global] lists the right root, an included file's [global] lists the decoy (the included
+	/// definition replaces the main one) | "superseding-right": the other way round
+	#[serde(default)]
+	pub split_global: String,
 }
 
 fn files_of(kind: &str, dir: &std::path::Path) -> Vec<String> {
@@ -36,6 +40,11 @@ fn files_of(kind: &str, dir: &std::path::Path) -> Vec<String> {
 		"malformed" => vec![p("bad.pem")],
 		"missing" => vec![p("missing.pem")],
 		"right+decoy" => vec![p("decoy.pem"), p("right.pem")],
+		// file names with pattern metacharacters designate themselves: ca[1].pem holds the right root, its sibling ca1.pem the decoy ...
+		"meta-right" => vec![p("ca[1].pem")],
+		// ... cb[1].pem and c?.pem hold the decoy, the siblings cb1.pem and cx.pem the right root
+		"meta-decoy" => vec![p("cb[1].pem")],
+		"meta-decoy2" => vec![p("c?.pem"), p("d*.pem")],
 		_ => vec![],
 	}
 }
@@ -66,6 +75,14 @@ fn exec_in(case: &Case, acmed: &std::path::Path, dir: &std::path::Path) -> Outco
 	};
 	let _ = std::fs::write(dir.join("right.pem"), right.root_pem());
 	let _ = std::fs::write(dir.join("decoy.pem"), decoy.root_pem());
+	let _ = std::fs::write(dir.join("ca[1].pem"), right.root_pem());
+	let _ = std::fs::write(dir.join("ca1.pem"), decoy.root_pem());
+	let _ = std::fs::write(dir.join("cb[1].pem"), decoy.root_pem());
+	let _ = std::fs::write(dir.join("cb1.pem"), right.root_pem());
+	let _ = std::fs::write(dir.join("c?.pem"), decoy.root_pem());
+	let _ = std::fs::write(dir.join("cx.pem"), right.root_pem());
+	let _ = std::fs::write(dir.join("d*.pem"), decoy.root_pem());
+	let _ = std::fs::write(dir.join("dd.pem"), right.root_pem());
 	let _ = std::fs::write(dir.join("bad.pem"), b"-----BEGIN CERTIFICATE-----\nnot base64 at all !!\n-----END CERTIFICATE-----\n");
 	let leaf_key = keys::gen("ecdsa-p256").unwrap();
 	let spki = leaf_key.public_key_to_der().unwrap();
@@ -98,12 +115,21 @@ fn exec_in(case: &Case, acmed: &std::path::Path, dir: &std::path::Path) -> Outco
 	if !g.is_empty() {
 		global["root_certificates"] = json!(g);
 	}
+	let mut include: Vec<String> = vec![];
+	if !case.split_global.is_empty() {
+		let (main_list, inc_list) = if case.split_global == "superseded-right" { ("right", "decoy") } else { ("decoy", "right") };
+		global["root_certificates"] = json!(files_of(main_list, dir));
+		let inc = dir.join("conf.d-20.toml");
+		let _ = std::fs::write(&inc, format!("[global]\nroot_certificates = {}\n", serde_json::to_string(&files_of(inc_list, dir)).unwrap()));
+		include.push(inc.display().to_string());
+	}
 	let mut ep = json!({"name": "e1", "url": ca.directory_url(), "tos_agreed": true});
 	let e = files_of(&case.endpoint, dir);
 	if !e.is_empty() {
 		ep["root_certificates"] = json!(e);
 	}
 	let cfg = json!({
+		"include": include,
 		"global": global,
 		"endpoint": [ep],
 		"account": [{"name": "a1", "contacts": [{"mailto": "a@c18.test"}]}],
@@ -139,7 +165,7 @@ fn exec_in(case: &Case, acmed: &std::path::Path, dir: &std::path::Path) -> Outco
 	let d = format!("{case:?}");
 	let sources = [&case.cli, &case.endpoint, &case.global];
 	let bad_file = sources.iter().any(|s| *s == "malformed" || *s == "missing");
-	let has_right = sources.iter().any(|s| s.contains("right")) || case.system == "right";
+	let has_right = sources.iter().any(|s| s.contains("right")) || case.system == "right" || case.split_global == "superseding-right";
 	let chain_validates = case.server == "trusted" && has_right;
 	// (a) safety: any request seen => the chain validates for the URL host
 	if !snap.log.is_empty() && !chain_validates {
@@ -473,7 +499,7 @@ fn cases(tier: Tier) -> Vec<Case> {
 		for ep in core {
 			for gl in core {
 				for server in ["trusted", "untrusted", "otherhost", "expired"] {
-					out.push(Case { cli: cli.into(), endpoint: ep.into(), global: gl.into(), server: server.into(), system: "empty".into(), url_host: "name".into() });
+					out.push(Case { cli: cli.into(), endpoint: ep.into(), global: gl.into(), server: server.into(), system: "empty".into(), url_host: "name".into(), split_global: String::new() });
 				}
 			}
 		}
@@ -481,15 +507,15 @@ fn cases(tier: Tier) -> Vec<Case> {
 	// endpoint addressed by a literal IP address
 	for src in ["right", "decoy", "absent"] {
 		for server in ["trusted", "untrusted", "otherhost", "expired"] {
-			out.push(Case { cli: "absent".into(), endpoint: src.into(), global: "absent".into(), server: server.into(), system: "empty".into(), url_host: "ip".into() });
-			out.push(Case { cli: src.into(), endpoint: "absent".into(), global: "decoy".into(), server: server.into(), system: "empty".into(), url_host: "ip".into() });
+			out.push(Case { cli: "absent".into(), endpoint: src.into(), global: "absent".into(), server: server.into(), system: "empty".into(), url_host: "ip".into(), split_global: String::new() });
+			out.push(Case { cli: src.into(), endpoint: "absent".into(), global: "decoy".into(), server: server.into(), system: "empty".into(), url_host: "ip".into(), split_global: String::new() });
 		}
 	}
 	// system store
 	for system in ["right", "decoy"] {
 		for server in ["trusted", "untrusted", "otherhost", "expired"] {
 			for src in ["absent", "decoy"] {
-				out.push(Case { cli: src.into(), endpoint: "absent".into(), global: "absent".into(), server: server.into(), system: system.into(), url_host: "name".into() });
+				out.push(Case { cli: src.into(), endpoint: "absent".into(), global: "absent".into(), server: server.into(), system: system.into(), url_host: "name".into(), split_global: String::new() });
 			}
 		}
 	}
@@ -501,8 +527,26 @@ fn cases(tier: Tier) -> Vec<Case> {
 				for server in ["trusted", "untrusted"] {
 					let mut s = [other.to_string(), other.to_string(), "absent".to_string()];
 					s[pos] = bad.to_string();
-					out.push(Case { cli: s[0].clone(), endpoint: s[1].clone(), global: s[2].clone(), server: server.into(), system: "empty".into(), url_host: "name".into() });
+					out.push(Case { cli: s[0].clone(), endpoint: s[1].clone(), global: s[2].clone(), server: server.into(), system: "empty".into(), url_host: "name".into(), split_global: String::new() });
 				}
+			}
+		}
+	}
+	// root files whose names contain pattern metacharacters, with look-alike siblings holding the other root
+	for kind in ["meta-right", "meta-decoy", "meta-decoy2"] {
+		for pos in 0..3 {
+			for server in ["trusted", "untrusted"] {
+				let mut s = ["absent".to_string(), "absent".to_string(), "absent".to_string()];
+				s[pos] = kind.to_string();
+				out.push(Case { cli: s[0].clone(), endpoint: s[1].clone(), global: s[2].clone(), server: server.into(), system: "empty".into(), url_host: "name".into(), split_global: String::new() });
+			}
+		}
+	}
+	// [global] root_certificates defined in the main file and again in an included file: the included definition replaces the other
+	for split in ["superseded-right", "superseding-right"] {
+		for server in ["trusted", "untrusted"] {
+			for cli in ["absent", "decoy"] {
+				out.push(Case { cli: cli.into(), endpoint: "absent".into(), global: "absent".into(), server: server.into(), system: "empty".into(), url_host: "name".into(), split_global: split.into() });
 			}
 		}
 	}
@@ -512,7 +556,7 @@ fn cases(tier: Tier) -> Vec<Case> {
 				for gl in ["absent", "right", "decoy", "right+decoy"] {
 					for server in ["trusted", "untrusted", "otherhost", "expired"] {
 						for system in ["empty", "decoy"] {
-							out.push(Case { cli: cli.into(), endpoint: ep.into(), global: gl.into(), server: server.into(), system: system.into(), url_host: "name".into() });
+							out.push(Case { cli: cli.into(), endpoint: ep.into(), global: gl.into(), server: server.into(), system: system.into(), url_host: "name".into(), split_global: String::new() });
 						}
 					}
 				}
@@ -523,7 +567,7 @@ fn cases(tier: Tier) -> Vec<Case> {
 }
 
 pub fn run(ctx: &Ctx, rep: &mut Report) {
-	rep.rule = "enumerated: each of the three root-certificate sources (--root-cert, endpoint root_certificates, global root_certificates) absent / holding the right root / holding a decoy root (27 combinations) x server chain {trusted, issued by an unknown root, trusted but for another host name, expired} with an empty system store; system store (SSL_CERT_FILE) holding the right or a decoy root; unreadable and malformed root files at each source with and without the right root elsewhere (thorough adds multi-file lists and a decoy system store); the endpoint addressed by name (localhost) or by a literal IP address (127.0.0.1, certificate with an iPAddress SAN); two endpoints with different private roots in one daemon, the second one presenting a chain issued under the first one's root; two endpoint entries for the same URL of which only one lists the private root. history (generated): one daemon, one root file listed on the command line, at the endpoint or globally, whose content is right / another root / garbage / removed / empty during each of 2..6 consecutive attempts (the file is changed while the attempt's post-operation hook is held): requests reach the server during attempt i iff the file holds the right root at that time, and the attempt's outcome follows. The mock CA is TLS-wrapped (leaf + intermediate presented). Oracle: (a) any HTTP request seen by the CA => the chain validates for the URL host under the model (right root listed or in the system store, server chain 'trusted'); (b) model says not trusted => the attempt reports failure and the CA saw zero requests; (c) model says trusted and all files readable => issuance succeeds (each source alone is honoured). Every enumerated case is non-trivial; a history is non-trivial when the trust decision changes between two attempts.".into();
+	rep.rule = "enumerated: each of the three root-certificate sources (--root-cert, endpoint root_certificates, global root_certificates) absent / holding the right root / holding a decoy root (27 combinations) x server chain {trusted, issued by an unknown root, trusted but for another host name, expired} with an empty system store; system store (SSL_CERT_FILE) holding the right or a decoy root; unreadable and malformed root files at each source with and without the right root elsewhere (thorough adds multi-file lists and a decoy system store); root files whose names contain pattern metacharacters ([ ] ? *) next to look-alike siblings holding the other root; [global] root_certificates defined in the main file and replaced by an included file's definition; the endpoint addressed by name (localhost) or by a literal IP address (127.0.0.1, certificate with an iPAddress SAN); two endpoints with different private roots in one daemon, the second one presenting a chain issued under the first one's root; two endpoint entries for the same URL of which only one lists the private root. history (generated): one daemon, one root file listed on the command line, at the endpoint or globally, whose content is right / another root / garbage / removed / empty during each of 2..6 consecutive attempts (the file is changed while the attempt's post-operation hook is held): requests reach the server during attempt i iff the file holds the right root at that time, and the attempt's outcome follows. The mock CA is TLS-wrapped (leaf + intermediate presented). Oracle: (a) any HTTP request seen by the CA => the chain validates for the URL host under the model (right root listed or in the system store, server chain 'trusted'); (b) model says not trusted => the attempt reports failure and the CA saw zero requests; (c) model says trusted and all files readable => issuance succeeds (each source alone is honoured). Every enumerated case is non-trivial; a history is non-trivial when the trust decision changes between two attempts.".into();
 	run_replays::<Case>(ctx, rep, "matrix", &exec);
 	run_replays::<TwoCase>(ctx, rep, "two-endpoints", &exec_two);
 	run_replays::<HistCase>(ctx, rep, "history", &exec_hist);
